@@ -405,13 +405,30 @@ def rewrite_body(text, rules_log, intended_panics=False, keep_asserts=False):
                         rules_log.append(("R2", atxt + " dropped (platform: Linux)"))
                         i = k + 1
                         continue
-                    if atxt in ("#[cfg(not(unix))]", "#[cfg(windows)]", '#[cfg(target_os="windows")]'):
+                    if atxt in ('#[cfg(not(all(target_os="linux",feature="io-uring")))]', '#[cfg(not(feature="io-uring"))]'):
+                        rules_log.append(("R2", atxt + " kept (feature io-uring is off in the verified configuration)"))
+                        i = k + 1
+                        continue
+                    if atxt in ("#[cfg(not(unix))]", "#[cfg(windows)]", '#[cfg(target_os="windows")]',
+                                '#[cfg(all(target_os="linux",feature="io-uring"))]', '#[cfg(feature="io-uring")]'):
                         # the item/block/statement this attribute guards does not exist on Linux: dropped with it
                         nx = _next_sig(toks, k + 1)
                         if nx < n and toks[nx].text == "{":
                             endb = match_close(toks, nx)
-                            rules_log.append(("R2", atxt + " { .. } dropped (platform: Linux)"))
+                            rules_log.append(("R2", atxt + " { .. } dropped (not in the verified configuration)"))
                             i = endb + 1
+                            continue
+                        if nx < n and toks[nx].kind == "ident" and toks[nx].text == "let":
+                            # a guarded `let .. ;` statement: dropped up to its `;`
+                            j2 = nx
+                            while j2 < n:
+                                if toks[j2].kind == "punct" and toks[j2].text in OPEN:
+                                    j2 = match_close(toks, j2) + 1; continue
+                                if toks[j2].kind == "punct" and toks[j2].text == ";":
+                                    break
+                                j2 += 1
+                            rules_log.append(("R2", atxt + " let ..; dropped (not in the verified configuration)"))
+                            i = j2 + 1
                             continue
                     raise ExtractError("cfg attribute inside extracted body: " + "".join(x.text for x in toks[i:k + 1]))
         # macro calls
@@ -801,6 +818,8 @@ def strip_leading_attrs(item):
 # run (lazy, up to the next literal token at bracket depth 0).  The same hole name must match the same text.
 KEYWORDS = {'if','let','while','match','return','in','for','mut','loop','else','move','ref','break','continue','as','fn','impl'}
 R9_RULES = [
+    ("R9s", "for ( $i , $x ) in $$e . iter ( ) . enumerate ( ) {",
+            "let mut r9_n: usize = 0; while r9_n < $$e.len() { let $i = r9_n; let $x = &$$e[$i]; r9_n = r9_n + 1;"),
     ("R9a", "for ( $i , $x ) in $$e . iter_mut ( ) . enumerate ( ) {",
             "let mut r9_n: usize = 0; while r9_n < $$e.len() { let $i = r9_n; let $x = &mut $$e[$i]; r9_n = r9_n + 1;"),
     ("R9c", "$$e . iter_mut ( ) . map ( | $x | ( $$m , $x ) ) . filter ( | ( $t , _ ) | $$c ) . for_each ( | ( _ , $x ) | $$b ) ;",
